@@ -527,9 +527,9 @@ def coverage_run():
     for act in ('AppendChar', 'AppendFmt'):
         if res.coverage.get(act, (0, 0))[1] == 0:
             raise tlc.MachineryFailure(f'vacuous: action {act} never taken')
-    res.stdout = ''
-    res.json = []
-    return res
+    return dict(coverage={k: list(c) for k, c in res.coverage.items()},
+                tlc=dict(distinct=res.distinct, generated=res.generated,
+                         depth=res.depth, wall=res.wall))
 
 
 ALPHABET = (1, 2, 3, 4, 5)
@@ -553,7 +553,7 @@ def plan_jobs(tier, rnd):
         for a in ALPHABET:
             add(f'texts {CH[a]!r}..', f'MC_TextP{a}', seeds=[(a,)],
                 maxlen='MCMaxLen', nums=[], fmtmax=0)
-        row_prob, text_row_prob, workers, procs = 0.35, 0.04, 3, 6
+        row_prob, text_row_prob, workers, procs = 0.35, 0.04, 3, 7
     else:
         maxlen, fmtmax = 6, 8
         ties = tie_numbers(rnd, 60)
@@ -592,9 +592,9 @@ def run(tier, seed):
     per_fn, seen_char, seen_fmt = {}, set(), set()
     samples, text_samples, longest = [], [], 0
     ctx = multiprocessing.get_context('fork')
-    with concurrent.futures.ThreadPoolExecutor(1) as tpool, \
-            concurrent.futures.ProcessPoolExecutor(procs, mp_context=ctx) as pool:
-        cov_fut = tpool.submit(coverage_run)
+    # (no threads in this process: the workers are forked)
+    with concurrent.futures.ProcessPoolExecutor(procs, mp_context=ctx) as pool:
+        cov_fut = pool.submit(coverage_run)
         futs = [pool.submit(job_worker, job) for job in jobs]
         try:
             for fut in futs:
@@ -611,12 +611,12 @@ def run(tier, seed):
                 samples += out['samples']
                 text_samples += out['text_samples']
                 longest = max(longest, out['maxlen_seen'])
-            cov_res = cov_fut.result()
+            cov = cov_fut.result()
         except BaseException:
             for fut in futs:
                 fut.cancel()
             raise
-    v.add_tlc(cov_res, 'Text_cov (TypeOK only, -coverage)')
+    v.add_tlc(_Res(cov['tlc']), 'Text_cov (TypeOK only, -coverage)')
     v.evaluations = total['judged']
     v.distinct.n = total['judged']
     for smp in samples[:4] + text_samples[:3]:
@@ -655,7 +655,7 @@ def run(tier, seed):
                                  '+ the pieces of the text itself',
                     text_format_max_len=fmtmax),
         laws_checked_by_tlc=LAWS,
-        coverage_actions={k: list(c) for k, c in cov_res.coverage.items()},
+        coverage_actions=cov['coverage'],
         tlc_jobs=len(jobs),
         slicing_states=total['slice_states'],
         text_states=total['text_states'],
